@@ -96,8 +96,7 @@ func NewWorld(t *testing.T, seed uint64, trace []int, stalls []Stall, controlled
 	w.driverGid = Gid()
 	w.Sched = newSched(w, stalls)
 	w.Net = newNet(w)
-	simhook.Sched = w
-	simhook.Controlled = controlled
+	simhook.Install(w, controlled)
 	return w
 }
 
@@ -377,8 +376,8 @@ func (w *World) Shutdown() {
 	}
 	synctest.Wait()
 	w.Sched.releaseAll()
-	simhook.Sched = nil
-	simhook.Controlled = false
+	// the world stays installed (in shutdown mode) until the next run installs its own: goroutines of this
+	// run that are still alive must keep ending up in the shutdown path, never in the real network
 }
 
 // BubbleStacks returns the stacks of all goroutines whose stack mentions the repository
